@@ -863,6 +863,11 @@ func (g *generator) step() (res Value, resultType resultType, ex *Exception) {
 
 				return
 			}
+			if !vm.halted() {
+				// runTryInner returned because an exception raised by native code (a Go panic) was handled by a
+				// try statement inside the finally block: keep running
+				continue
+			}
 			res = vm.pop()
 			if vm.prg == nil { // It was a return, not a yield
 				return
